@@ -11,7 +11,7 @@ import more_itertools
 
 from cirbo.core.boolean_function import RawTruthTableModel
 from cirbo.core.circuit import Circuit
-from cirbo.core.circuit.exceptions import CircuitValidationError
+from cirbo.core.circuit.exceptions import CircuitError
 from cirbo.core.circuit.gate import Label
 from cirbo.core.circuit.operators import GateState, Undefined
 from cirbo.core.circuit.validation import check_circuit_has_no_cycles
@@ -581,14 +581,15 @@ def minimize_subcircuits(
         _rename_subcircuit_gates(
             new_circuit, new_subcircuit, input_labels_mapping, output_labels_mapping
         )
-        new_circuit.replace_subcircuit(
-            new_subcircuit, input_labels_mapping, output_labels_mapping
-        )
-
         try:
+            new_circuit.replace_subcircuit(
+                new_subcircuit, input_labels_mapping, output_labels_mapping
+            )
             check_circuit_has_no_cycles(new_circuit)
-        except CircuitValidationError:
-            logger.debug("Circuit becomes cyclic")
+        except CircuitError:
+            # e.g. the cone (as known from the available cuts) has users outside its
+            # outputs, or the circuit becomes cyclic: leave this cone as it is.
+            logger.debug("Subcircuit can't be replaced")
             continue
 
         circuit = new_circuit
